@@ -55,11 +55,20 @@
 //! flight when the read started or was called / returned before the read ended) **and** ≥ 1
 //! preemption happened at a lock access inside `dynamic_filters/mod.rs`. Distinct by case JSON.
 //!
-//! **Exhaustive sub-run** (`Property::extra`, `sched::explore`): fixed tiny configurations, every
-//! schedule with ≤ 3 (thorough ≤ 4) preemptions and ≤ 1 (≤ 2) forced choices off round robin:
-//! (A) 1 updater × 2 updates + complete, reader [Current ×3] and reader [Current, Evaluate, Snapshot]
-//! on the same derived filter; (B) 2 updaters × 1 update, readers [Current, Current] on a derived
-//! filter and [Poll, WaitUpdate, Current, WaitComplete, Poll] on the base filter.
+//! **Exhaustive sub-run** (`Property::extra`, `sched::explore`, one exploring thread per configuration):
+//! fixed tiny configurations (shape `Add`), every schedule with ≤ 2 (thorough ≤ 4) preemptions and
+//! ≤ 1 (≤ 2) forced choices off round robin — (A) 1 updater × 2 updates + complete, readers
+//! [Current ×3] and [Current, Evaluate, Snapshot] on one derived filter; (B) 2 updaters × 1 update +
+//! complete, readers [Current ×2] on a derived filter and [Poll, WaitUpdate, Current, WaitComplete,
+//! Poll] on the base filter; (C) 1 update, three readers ([Current ×2] twice on derived 1,
+//! [Snapshot, Generation] on derived 2); (D) 2 updaters × 2 updates, one reader [Current ×4].
+//! Measured: quick 10 597 schedules, thorough 3 628 314 schedules, all four spaces enumerated completely.
+//!
+//! **Budgets / cost** (wall time is dominated by OS thread hand-off latency, so it varies strongly with
+//! machine load): quick 16 000 generated cases on 8 shards + the exhaustive sub-run, 2–4 s of run time
+//! on a busy 16-core box (≈ 30 s once under extreme load), ~2 850 distinct non-trivial cases;
+//! thorough 2 000 000 generated cases on 16 shards + 3.6·10⁶ enumerated schedules, 351 s, 456 699
+//! distinct non-trivial cases.
 //!
 //! **Assumptions checked at run time** (trace inspection, else the case is `inconclusive`): between
 //! the call of `update()` / `mark_complete()` and its return the only scheduling points are the
